@@ -40,6 +40,10 @@ class CtxProg(plumpy.ContextMixin, programs.ProgBase):
         self.ctx.count = self.ctx.get('count', 0) + 1
         self.ctx.setdefault('nested', {'d': []})['d'].append(i)
         self.out('o%d' % i, {'v': [i]})
+        if self.inputs is not None and 'todo' in self.inputs:
+            # in-place changes of (mutable) input values: a checkpoint written earlier must not follow them
+            self.inputs['todo'].append('done-%d' % i)
+            self.inputs['cfg']['flags'].append(i)
 
 
 generated.register(CtxProg, 'CtxProg')
@@ -98,7 +102,7 @@ def run_case(case):
     cls = programs.program_class(PROGRAM, CtxProg)
     try:
         with Driver(20000) as drv:
-            procs = [cls(pid=PIDS[kind][i], loop=drv.loop) for i in range(3)]
+            procs = [cls(inputs={'todo': [1, 2, 3], 'cfg': {'flags': ['new']}} if i != 1 else None, pid=PIDS[kind][i], loop=drv.loop) for i in range(3)]
             tasks = {}
             mem = persistence.InMemoryPersister()
             pk = persistence.PicklePersister(workdir)
